@@ -34,7 +34,7 @@ except Exception:  # noqa: BLE001
 RULE = (
     'one entry point for every engine: Message.unpack(type, body, negotiated) then everything read_message and the three API encoders '
     '(JSON v6, JSON v4, text v4) do with the result, the RIB index of every NLRI, and for an OPEN Negotiated.received()/validate(); '
-    '13 negotiated parameter sets built from two OPENs (before the peer OPEN, asn4 on/off, add-path on/off, unicast/multicast/labeled/VPN, flow and flow-vpn, '
+    '14 negotiated parameter sets built from two OPENs (before the peer OPEN, asn4 on/off, add-path on/off, unicast/multicast/labeled/VPN, flow and flow-vpn, '
     'evpn+vpls, bgp-ls, mup+mcast-vpn+sr-policy, extended next hop, every family with 65535-byte messages). '
     'mutated: a well-formed message (refwire UPDATE for the IP families, refwire OPEN, the 150 qa messages for the exotic families, small messages) with exactly ONE '
     'structured corruption located on its TLV tree (length field +-k / zero / max / one past the enclosing end, truncation raw, repaired, or nested, '
